@@ -608,6 +608,118 @@ example : ∃ n ε₀, 0 < ε₀ ∧
     (fun _ => rfl) (fun _ => rfl) (fun _ => rfl) (by norm_num) ⟨by norm_num, by norm_num⟩ ⟨by norm_num, by norm_num⟩
     (Or.inr (Or.inr (Or.inl rfl)))
 
+/-! ### perpendicularity on open edges -/
+
+theorem closeW_far0 (τ : Tol K) (t w : K) (h : τ.batol < t) : closeW τ t 0 w = 0 := by
+  have : isclose τ.bary t 0 = false := by
+    cases hh : isclose τ.bary t 0
+    · rfl
+    · rw [isclose_iff] at hh
+      simp only [Tol.bary, sub_zero, abs_zero, mul_zero, add_zero] at hh
+      have := le_abs_self t; linarith
+  simp [closeW, this]
+
+theorem closeW_far1 (τ : Tol K) (t w : K) (h : t + τ.batol + τ.rtol < 1) : closeW τ t 1 w = 0 := by
+  have : isclose τ.bary t 1 = false := by
+    cases hh : isclose τ.bary t 1
+    · rfl
+    · rw [isclose_iff] at hh
+      simp only [Tol.bary, abs_one, mul_one] at hh
+      have := neg_abs_le (t - 1); linarith
+  simp [closeW, this]
+
+theorem finish2_some (det : K) (raw : K × K) (nx ny : K) (h : finish2 true det raw = some [nx, ny]) :
+    nx = raw.1 * sgn det / HasSqrt.sqrt (raw.1 * sgn det * (raw.1 * sgn det) + raw.2 * sgn det * (raw.2 * sgn det)) ∧
+    ny = raw.2 * sgn det / HasSqrt.sqrt (raw.1 * sgn det * (raw.1 * sgn det) + raw.2 * sgn det * (raw.2 * sgn det)) := by
+  simp only [finish2, if_true, unit2] at h
+  split at h
+  · simp at h
+  · simp only [Option.some.injEq, List.cons.injEq, and_true] at h
+    exact ⟨h.1.symm, h.2.symm⟩
+
+/-- **Perpendicular on the open edges of a parallelogram.** At a point of an edge `s ∈ {0,1}` whose other
+    barycentric coordinate is farther than the tolerance from 0 and 1, the coded normal is perpendicular to that
+    edge (direction `corner_2 − origin`); symmetrically for the edges `t ∈ {0,1}` (direction `corner_1 − origin`). -/
+theorem par_normal_perp (τ : Tol K) (v : String) (o c1 c2 : PFun K) (ρ : Env K)
+    (ox oy ax ay bx cy s t nx ny : K)
+    (ho : ∀ q, o.f ([(v, q)] ++ ρ) = [ox, oy]) (h1 : ∀ q, c1.f ([(v, q)] ++ ρ) = [ax, ay])
+    (h2 : ∀ q, c2.f ([(v, q)] ++ ρ) = [bx, cy])
+    (hdet : (ax - ox) * (cy - oy) - (ay - oy) * (bx - ox) ≠ 0)
+    (hn : normalAux true τ (.par v o c1 c2)
+      [(v, [ox + s * (ax - ox) + t * (bx - ox), oy + s * (ay - oy) + t * (cy - oy)])] ρ = some [nx, ny]) :
+    (τ.batol < t → t + τ.batol + τ.rtol < 1 → nx * (bx - ox) + ny * (cy - oy) = 0) ∧
+    (τ.batol < s → s + τ.batol + τ.rtol < 1 → nx * (ax - ox) + ny * (ay - oy) = 0) := by
+  simp only [normalAux, get_single, ho, h1, h2] at hn
+  obtain ⟨e1, e2⟩ := finish2_some _ _ nx ny hn
+  have hsol : solveLgs (ox + s * (ax - ox) + t * (bx - ox) - ox) (oy + s * (ay - oy) + t * (cy - oy) - oy)
+      (ax - ox) (ay - oy) (bx - ox) (cy - oy) = (s, t) :=
+    solveLgs_fst _ _ _ _ _ _ s t hdet (by ring) (by ring)
+  simp only [parRaw, parNormalDir, unit2, hsol] at e1 e2
+  constructor
+  · intro ha hb
+    rw [closeW_far0 τ t _ ha, closeW_far1 τ t _ hb] at e1 e2
+    rw [e1, e2]; ring
+  · intro ha hb
+    rw [closeW_far0 τ s _ ha, closeW_far1 τ s _ hb] at e1 e2
+    rw [e1, e2]; ring
+
+/-- **Perpendicular on the open edges of a triangle**: on the edge opposite to a corner, away from the
+    other two edges by more than the tolerance, the coded normal is perpendicular to that edge. -/
+theorem tri_normal_perp (τ : Tol K) (v : String) (o c1 c2 : PFun K) (ρ : Env K)
+    (ox oy ax ay bx cy s t nx ny : K)
+    (ho : ∀ q, o.f ([(v, q)] ++ ρ) = [ox, oy]) (h1 : ∀ q, c1.f ([(v, q)] ++ ρ) = [ax, ay])
+    (h2 : ∀ q, c2.f ([(v, q)] ++ ρ) = [bx, cy])
+    (hdet : (ax - ox) * (cy - oy) - (ay - oy) * (bx - ox) ≠ 0)
+    (hn : normalAux true τ (.tri v o c1 c2)
+      [(v, [ox + s * (ax - ox) + t * (bx - ox), oy + s * (ay - oy) + t * (cy - oy)])] ρ = some [nx, ny]) :
+    -- edge origin → corner_2 (s = 0)
+    (τ.batol < t → s + t + τ.batol + τ.rtol < 1 → nx * (bx - ox) + ny * (cy - oy) = 0) ∧
+    -- edge origin → corner_1 (t = 0)
+    (τ.batol < s → s + t + τ.batol + τ.rtol < 1 → nx * (ax - ox) + ny * (ay - oy) = 0) ∧
+    -- edge corner_1 → corner_2 (s + t = 1)
+    (τ.batol < s → τ.batol < t → nx * (bx - ax) + ny * (cy - ay) = 0) := by
+  simp only [normalAux, get_single, ho, h1, h2] at hn
+  obtain ⟨e1, e2⟩ := finish2_some _ _ nx ny hn
+  have hsol : solveLgs (ox + s * (ax - ox) + t * (bx - ox) - ox) (oy + s * (ay - oy) + t * (cy - oy) - oy)
+      (ax - ox) (ay - oy) (bx - ox) (cy - oy) = (s, t) :=
+    solveLgs_fst _ _ _ _ _ _ s t hdet (by ring) (by ring)
+  simp only [triRaw, triNormalDir, unit2, hsol] at e1 e2
+  refine ⟨fun ha hb => ?_, fun ha hb => ?_, fun ha hb => ?_⟩
+  · rw [closeW_far0 τ t _ ha, closeW_far1 τ (s + t) _ hb] at e1 e2
+    rw [e1, e2]; ring
+  · rw [closeW_far0 τ s _ ha, closeW_far1 τ (s + t) _ hb] at e1 e2
+    rw [e1, e2]; ring
+  · rw [closeW_far0 τ s _ ha, closeW_far0 τ t _ hb] at e1 e2
+    rw [e1, e2]; ring
+
+theorem finish2_shape (o : Bool) (det : K) (raw : K × K) (n : List K) (h : finish2 o det raw = some n) :
+    ∃ nx ny, n = [nx, ny] := by
+  cases o
+  · simp only [finish2, Bool.false_eq_true, if_false] at h
+    split at h
+    · simp at h
+    · exact ⟨_, _, (Option.some.inj h).symm⟩
+  · simp only [finish2, if_true] at h
+    split at h
+    · simp at h
+    · exact ⟨_, _, (Option.some.inj h).symm⟩
+
+/-- non-vacuity of `par_normal_perp`: the clockwise slanted parallelogram of the example above, middle of the edge
+    `s = 0`: a normal exists and is perpendicular to `corner_2 − origin = (3, 1)` -/
+example : ∃ nx ny : ℝ, normalAux true tolR (.par "x" (.const [0, 0]) (.const [1, 2]) (.const [3, 1]))
+      [("x", [0 + 0 * (1 - 0) + 1 / 2 * (3 - 0), 0 + 0 * (2 - 0) + 1 / 2 * (1 - 0)])] [] = some [nx, ny] ∧
+    nx * (3 - 0) + ny * (1 - 0) = 0 := by
+  obtain ⟨n, _, _, hn, _, _⟩ := par_normal_outward sqrtOk_real tolR tolR_ok.1 tolR_ok.2 "x"
+    (.const [0, 0]) (.const [1, 2]) (.const [3, 1]) [] 0 0 1 2 3 1 0 (1 / 2)
+    (fun _ => rfl) (fun _ => rfl) (fun _ => rfl) (by norm_num) ⟨by norm_num, by norm_num⟩ ⟨by norm_num, by norm_num⟩
+    (Or.inl rfl)
+  have hn' := hn
+  simp only [normalAux, get_single, PFun.const] at hn'
+  obtain ⟨nx, ny, rfl⟩ := finish2_shape _ _ _ _ hn'
+  refine ⟨nx, ny, hn, ?_⟩
+  exact (par_normal_perp tolR "x" (.const [0, 0]) (.const [1, 2]) (.const [3, 1]) [] 0 0 1 2 3 1 0 (1 / 2) nx ny
+    (fun _ => rfl) (fun _ => rfl) (fun _ => rfl) (by norm_num) hn).1 (by simp only [tolR]; norm_num) (by simp only [tolR]; norm_num)
+
 /-! ### non-vacuity of the Boolean theorems on the executable instance `ℚ` -/
 
 section examples
@@ -662,5 +774,38 @@ example : dot [(3 - 1) / 3, (1 - 0) / 3, (2 - 0) / (3 : Rat)] [(3 - 1) / 3, (1 -
     (fun _ => rfl) (fun _ => rfl) (by norm_num) (by norm_num)).2
 
 end examples
+
+section finding
+/-- a square-root function on `ℚ` that is exact on every radicand occurring in the witness below
+    (9, 16, 25 — a 3-4-5 triangle — and 0, 1) -/
+def sqrtQ (x : Rat) : Rat := if x = 25 then 5 else if x = 16 then 4 else if x = 9 then 3 else x
+
+local instance ratSqrt345 : HasSqrt Rat := ⟨sqrtQ⟩
+
+/-- 3-4-5 triangle ∪ unit disc around (8, −2) -/
+def exUnion : Dom Rat :=
+  .union (.tri "x" (.const [0, 0]) (.const [4, 0]) (.const [0, 3])) (.circle "x" (.const [8, -2]) (.const [1]))
+
+/-- **Open finding `tri_boundary_extended_line` (the unconditional composite statement is false of the code).**
+    The lowest point (8, −3) of the disc lies on the infinite line through the triangle's edge corner_1–corner_2
+    (3x + 4y = 12), far outside the triangle. The coded boundary test of the triangle accepts it (no range check on
+    `bary_x + bary_y ≈ 1`), so the union's boundary test accepts it as well and `normal` selects the TRIANGLE's
+    edge normal (3/5, 4/5) — but a step of 1/2 along it ends inside the disc: not outward. -/
+theorem union_extended_line_witness :
+    bdryContains tolQ exUnion [("x", [8, -3])] [] = some true ∧
+    normalAux true tolQ exUnion [("x", [8, -3])] [] = some [3 / 5, 4 / 5] ∧
+    mem exUnion [("x", moved [8, -3] [3 / 5, 4 / 5] (1 / 2))] [] := by
+  refine ⟨by decide +kernel, by decide +kernel, ?_⟩
+  refine (contains_iff_mem tolQ exUnion _ _ true ?_ ?_ ?_).1 rfl
+  · simp [exUnion, Dom.solid]
+  · simp only [exUnion, NonDeg, PFun.const]
+    refine ⟨?_, trivial⟩
+    intro ox oy ax ay bx cy h1 h2 h3
+    simp only [List.cons.injEq, and_true] at h1 h2 h3
+    obtain ⟨rfl, rfl⟩ := h1; obtain ⟨rfl, rfl⟩ := h2; obtain ⟨rfl, rfl⟩ := h3
+    norm_num
+  · decide +kernel
+end finding
+
 
 end TPV.Geom
